@@ -106,27 +106,53 @@ func c03r1(c *Check) {
 				return
 			}
 			// staleness: name read from the fields slot must not be overwritten before the call
-			if ld, ok := strip(arg).(*ssa.UnOp); ok && ld.Op == token.MUL {
-				if ia, ok := ld.X.(*ssa.IndexAddr); ok {
-					stale := false
-					allInstrs(fn, func(st ssa.Instruction) {
-						s, ok := st.(*ssa.Store)
-						if !ok {
-							return
-						}
-						sa, ok := s.Addr.(*ssa.IndexAddr)
-						if !ok || sa.X != ia.X {
-							return
-						}
-						if instrReachAvoiding(ld, s, nil) && instrReachAvoiding(s, in, ld) {
-							stale = true
-						}
-					})
-					if stale {
-						c.Violate(key, c.At(in), "the name was read before a rewriter stored a new name into the fields slot: the filter is evaluated on the pre-rewrite name")
-						return
+			// (for a helper's parameter: before the call of the helper, at every call site)
+			var staleAt func(f *ssa.Function, arg ssa.Value, use ssa.Instruction, depth int) bool
+			staleAt = func(f *ssa.Function, arg ssa.Value, use ssa.Instruction, depth int) bool {
+				if ld, ok := strip(arg).(*ssa.UnOp); ok && ld.Op == token.MUL {
+					if ia, ok := ld.X.(*ssa.IndexAddr); ok {
+						stale := false
+						allInstrs(f, func(st ssa.Instruction) {
+							s, ok := st.(*ssa.Store)
+							if !ok {
+								return
+							}
+							sa, ok := s.Addr.(*ssa.IndexAddr)
+							if !ok || sa.X != ia.X {
+								return
+							}
+							if instrReachAvoiding(ld, s, nil) && instrReachAvoiding(s, use, ld) {
+								stale = true
+							}
+						})
+						return stale
 					}
 				}
+				if par, ok := strip(arg).(*ssa.Parameter); ok && depth < 3 {
+					if _, declared := paramKinds[funcCanonical(par.Parent())]; declared {
+						return false
+					}
+					idx := -1
+					for i, q := range par.Parent().Params {
+						if q == par {
+							idx = i
+						}
+					}
+					for _, e := range c.P.CG().In[par.Parent()] {
+						cc := callCommon(e.Site)
+						if cc == nil || e.Kind == EdgeRef || cc.IsInvoke() || idx >= len(cc.Args) {
+							continue
+						}
+						if staleAt(e.Caller, cc.Args[idx], e.Site, depth+1) {
+							return true
+						}
+					}
+				}
+				return false
+			}
+			if staleAt(fn, arg, in, 0) {
+				c.Violate(key, c.At(in), "the name was read before a rewriter stored a new name into the fields slot: the filter is evaluated on the pre-rewrite name")
+				return
 			}
 			c.Hold(key, c.At(in), "argument is the current metric name")
 		})
@@ -288,6 +314,8 @@ func c03r2(c *Check) {
 			missing = append(missing, w)
 		}
 	}
+	// what AddMaybe decides depends on the filter stages only (rule C11.R3, evaluated here as well)
+	c11r3(c)
 	c.Judge(len(missing) == 0, "matcher PreMatch∪MatchRegexAndExpand consult six options", c.AtFn(c.P.Func("matcher", "*Matcher", "PreMatch")), "prefix, notPrefix, sub, notSub, regex, notRegex are all read", "options never consulted on the aggregation path: "+strings.Join(missing, ", ")+" (documented for addAgg and [[aggregation]], accepted, silently ignored)")
 }
 
